@@ -28,7 +28,7 @@ from vf.sym import MV, SymName, SymRef, SymInt, SymBool, SymDict, NONEVAL, PyExc
 from vf.spec import Z3Ops, P, View, CallShape, PO, POK, VP, KWO, VK
 from vf.interp import Interp, Inst, IClass
 from vf.harness import VC, mk_sig, mk_call, sig_view, pview, run_unit
-from .common import clause, name_term, ua_denotes, stands_of, ua_follows_goal, ua_return_goal
+from .common import FRAME_PROPS, clause, name_term, ua_denotes, stands_of, ua_follows_goal, ua_return_goal
 from .merge import exc_is, src_entries, key_eq, sym_sig_data, real_sig_data
 
 U = '_signatures.mask'
@@ -42,8 +42,8 @@ C_META = clause(U, 'post:meta_unchanged_but_kind', ['C10'], 'B')
 C_UA = clause(U, 'post:ua_follows', ['C11'], 'B')
 C_SRC = clause(U, 'post:sources_wf', ['C08'], 'B')
 C_DEPTHS = clause(U, 'post:depths_unchanged', ['C08'], 'B')
-C_FRAME = clause(U, 'frame:inputs_unchanged', ['C16', 'C08'], 'B')
-C_FRESH = clause(U, 'frame:fresh_sources', ['C16', 'C08'], 'B')
+C_FRAME = clause(U, 'frame:inputs_unchanged', FRAME_PROPS, 'B')
+C_FRESH = clause(U, 'frame:fresh_sources', FRAME_PROPS, 'B')
 L_ORDER = clause(U, 'law:order_independent', ['C03'], 'B')
 L_ZERO = clause(U, 'law:mask_zero', ['C03', 'C09'], 'B')
 L_MM = clause(U, 'law:mask_mask', ['C03'], 'B')
